@@ -11,7 +11,9 @@ and the property itself is tested on the real code (the failing-input search): a
 through the real `apply` on small grids with integer / float32 / float64 (and mixed) inputs — the result must be
 floating point and equivariant ("for all series" includes whole-Kelvin integer model output); a second batch drives `apply` in
 every other call form a user legitimately can (failsafe on / off, serial / parallel with 1..4 processes, progress bar, every accepted
-time encoding or none, every memory layout, data originally in K or degC, other debiasers constructed before) — see CALL FORMS.
+time encoding or none, every memory layout, data originally in K or degC, other debiasers constructed before) — see CALL FORMS; a third
+batch runs apply_location on atypical series (gaps: NaN / inf in different numbers per series; series that hardly vary, so that spread /
+magnitude differs by orders of magnitude between the units; units with huge / tiny numbers) — see ATYPICAL SERIES.
 """
 import datetime
 from fractions import Fraction
@@ -28,6 +30,8 @@ from harness import probes
 PROP = "C04"
 TARGETS = ["IbicusModel.Props.C04", "IbicusModel.Props.C04Gen"]
 GEN = ["Debiasers", "Config"]
+TARGETS += ["IbicusModel.Props.Capstone"]  # capstone: C04 stated on the composition of the regenerated pieces (loop spec ∘ per-window program ∘ grid map); the audit imports it
+GEN += ["Loops", "GridLoops", "DebWin", "Debiasers", "IsimipStep6"]  # the groups the capstone composes (lean_phase regenerates every transitively imported group anyway)
 
 # the unit maps of the brief: a in {1, 9/5, 5/9, 2.5} x b in {0, -273.15, 32, 1e3} (identity excluded)
 MAPS = [(a, b) for a in (1.0, 9 / 5, 5 / 9, 2.5) for b in (0.0, -273.15, 32.0, 1e3) if not (a == 1.0 and b == 0.0)]
@@ -503,6 +507,219 @@ def call_text(call):
             f"progressbar={call.get('progressbar', False)}, time axes {call.get('time_kinds')}, layouts {call.get('layouts')}")
 
 
+# ------------------------------------------------------------------ ATYPICAL SERIES ("for all series")
+# Quantifier covered: "for all series".  Every batch above draws complete, well-spread tas-like series (noise of 3-5 K around a seasonal
+# cycle, values of a few hundred).  The statement has no such guard, and the library accepts (with at most a warning) series that
+#   * "missing":   contain gaps — NaN (or +-inf) in obs, cm_hist and / or cm_future, in different numbers per series.  g(NaN) = NaN, so the
+#                  statement reads: the two outputs are NaN at the same steps and related by g at the others; where the code raises in BOTH
+#                  units there is no output to compare (counted, `undefined_in_both_units`), where it raises in ONE unit only the output
+#                  exists in one unit and not in the other — a failing input;
+#   * "narrow":    hardly vary — a spread of 1e-5 .. 0.3 K around some level (an ice-covered ocean cell, a smoothed climatology), in one, two
+#                  or all three series, so that (spread / magnitude) differs by orders of magnitude between the two units; half of the cases
+#                  pair the level with the unit map that brings it next to zero (271.35 K = -1.8 degC, 255.4 K = 0.05 degF) or away from it;
+#   * "magnitude": are given in a unit in which the numbers are huge or tiny (Pa vs hPa, K vs mK, per-second vs per-day quantities of an
+#                  unbounded variable): the whole data set is multiplied by a power of ten before the unit map is applied.
+# The guards of DESIGN.md §4 stay in force: no series is exactly constant (fitted scales non-zero) and no window sample is empty.  Exact
+# arithmetic vs floats: the unit map rounds each value to eps * |g(x)|; relative to a spread sigma that is a perturbation eps * scale / sigma
+# of every standardised value, carried to the output with the output's own spread — the tolerance has this conditioning term beside the
+# usual 1e-8 * scale (measured on /repo: the term is >= 300 x the deviation actually seen at sigma = 1e-5).
+ATYP_SUBSETS = [("F",), ("H", "F"), ("H",), ("O",), ("O", "H", "F"), ("O", "F")]
+ATYP_WINDOWS = [(61, 31), (91, 15), (45, 45), (31, 31)]
+# (level in K, map that brings it next to zero) ; the reverse direction (data in degC next to zero -> K) via base "C"
+ATYP_NEAR_ZERO = [(271.35, (1.0, -273.15)), (255.4, (9 / 5, -459.67)), (273.16, (1.0, -273.15)), (256.1, (9 / 5, -459.67)), (274.9, (1.0, -273.15))]
+ATYP_LEVELS_K = [271.35, 283.0, 300.0, 255.4, 273.16]
+ATYP_GAP_TOKENS = ["nan", "nan", "nan", "+inf", "nan", "-inf", "nan"]
+ATYP_FACTORS = [100.0, 1e-3, 1e5, 1e-5, 1e3, 0.01]
+# multiplicative forms (pure rescalings): (factor, a) — flux-like numbers (kg m-2 s-1 is ~3e-5 for 2.5 mm/day) and per-day <-> per-second style maps
+ATYP_FLUX = [(1e-7, 1 / 86400), (1e-11, 1000.0), (1e-6, 1 / 86400), (1e-7, 1000.0), (1e-11, 2.5)]
+
+
+def atyp_data(case):
+    """the three dated series of an atypical-series case (a function of the case record alone: replayable)"""
+    s = int(case["np_seed"])
+    nprs = np.random.RandomState(s)
+    n = int(case["n"])
+    y0 = 1961 + s % 90
+    dO = probes.dates_from(datetime.date(y0 - 25, 1 + s % 12, 1 + s % 28), n)
+    dH = probes.dates_from(datetime.date(y0 - 26, 1 + (s // 12) % 12, 1), n + 37)
+    dF = probes.dates_from(datetime.date(y0, 1 + (s // 7) % 12, 1 + (s // 3) % 28), n - 23)
+    off = 0.0 if case["base"] == "C" else 273.15
+    d = {"O": probes.tas_like(nprs, dO, off + 9.0, 3.0), "H": probes.tas_like(nprs, dH, off + 11.5, 4.5),
+         "F": probes.tas_like(nprs, dF, off + 14.0, 4.0)}
+    if case["kind"] == "narrow":
+        for i, key in enumerate(case["subset"]):
+            x = d[key]
+            # the same shape (seasonal cycle + noise, tie-free), squeezed to the spread sigma around the level (+ a different offset per series)
+            d[key] = (case["level"] + 0.37 * i * case["sigma"]) + case["sigma"] * (x - x.mean()) / x.std()
+    elif case["kind"] == "magnitude":
+        d = {key: case["factor"] * x for key, x in d.items()}
+    elif case["kind"] == "missing":
+        for key, count, token, layout in case["gaps"]:
+            x = d[key]
+            count = min(int(count), x.size - 40)
+            if layout == "block":
+                st = int(nprs.randint(0, x.size - count + 1))
+                idx = np.arange(st, st + count)
+            else:
+                idx = nprs.choice(x.size, count, replace=False)
+            x[idx] = {"nan": np.nan, "+inf": np.inf, "-inf": -np.inf}[token]
+    return d["O"], d["H"], d["F"], dO, dH, dF
+
+
+def atyp_judge(factory, kw, data, a, b):
+    """f(g(x)) vs g(f(x)) with NaN / inf compared as values and exceptions compared as outcomes.
+    returns (problem | None, max deviation / tolerance, detail, outcome tag)"""
+    o, h, f, dO, dH, dF = data
+    outs, raised = [], []
+    with warnings.catch_warnings(), np.errstate(all="ignore"):
+        warnings.simplefilter("ignore")
+        for args in ((o.copy(), h.copy(), f.copy()), (a * o + b, a * h + b, a * f + b)):
+            try:
+                outs.append(np.asarray(factory(**kw).apply_location(*args, dO, dH, dF), dtype=float))
+                raised.append(None)
+            except Exception as ex:  # noqa: BLE001  (an outcome of the code under test, compared below)
+                outs.append(None)
+                raised.append(f"{type(ex).__name__}: {str(ex)[:160]}")
+    if raised[0] and raised[1]:
+        return None, 0.0, {"raised_in_both_units": raised}, "undefined_in_both_units"
+    if raised[0] or raised[1]:
+        which = "the original unit" if raised[0] else "the other unit"
+        return (f"apply_location raises in {which} only ({raised[0] or raised[1]}) and returns a series in the other: the output exists in one unit and "
+                f"not in the other"), float("inf"), {"raised": raised}, "raised_in_one_unit"
+    with np.errstate(all="ignore"):
+        want, got = a * outs[0] + b, outs[1]
+    if want.shape != got.shape:
+        return f"shapes differ {want.shape} / {got.shape}", float("inf"), None, "shape"
+    fin = [x[np.isfinite(x)] for x in (a * o + b, a * h + b, a * f + b, o, h, f)]
+    if any(x.size < 2 for x in fin):
+        return None, 0.0, None, "no_finite_data"
+    outfin = np.concatenate([want[np.isfinite(want)], got[np.isfinite(got)]])
+    # no floor at 1: in a unit with tiny numbers (a flux per second) the tolerance has to be relative to the data as well; the roundings made
+    # in the original unit arrive multiplied by a
+    scale = max(max(float(np.max(np.abs(x))) for x in fin[:3]), abs(a) * max(float(np.max(np.abs(x))) for x in fin[3:]),
+                float(np.max(np.abs(outfin))) if outfin.size else 0.0) or 1.0
+    sigma_min = min(float(np.std(x)) for x in fin)
+    out_spread = float(np.ptp(outfin)) if outfin.size else 0.0
+    in_scale = max(float(np.max(np.abs(x))) for x in fin)
+    tol = REL_TOL * scale + (1e3 * np.finfo(float).eps * in_scale / sigma_min * out_spread if sigma_min > 0 else 0.0)
+    same = (np.isnan(want) & np.isnan(got)) | (np.isinf(want) & np.isinf(got) & (np.sign(want) == np.sign(got)))
+    with np.errstate(all="ignore"):
+        dev = np.abs(want - got)
+    dev[same] = 0.0
+    dev[~np.isfinite(dev)] = np.inf
+    bad = np.where(dev > tol)[0]
+    mx = float(dev.max()) / tol if dev.size else 0.0
+    tag = "nan_in_both_units" if np.isnan(want).any() and not bad.size else "compared"
+    if bad.size:
+        i = int(bad[0])
+        detail = {"index": i, "g_of_f": float(want[i]), "f_of_g": float(got[i]), "n_bad": int(bad.size), "tolerance": tol,
+                  "nan_steps": [int(np.isnan(want).sum()), int(np.isnan(got).sum())]}
+        return (f"f(g(x)) != g(f(x)) at {bad.size} of {want.size} steps (NaN / inf compared as values; NaN steps {detail['nan_steps'][0]} / {detail['nan_steps'][1]}), "
+                f"max deviation {float(dev.max()):.3g} (tolerance {tol:.3g}); first index {i}: g(f(x))={want[i]!r} f(g(x))={got[i]!r}"), mx, detail, "bad"
+    return None, mx, None, tag
+
+
+def atyp_float_near_tie(data, a, b):
+    """two distinct values of the pooled sample (all three series) are equal or within 8 ulps of each other in one of the two units"""
+    pooled = np.concatenate([x[np.isfinite(x)] for x in data[:3]])
+    for v in (pooled, a * pooled + b):
+        u = np.unique(v)
+        if u.size < np.unique(pooled).size or (u.size > 1 and np.min(np.diff(u) / np.spacing(np.maximum(np.abs(u[1:]), np.abs(u[:-1])))) <= 8):
+            return True
+    return False
+
+
+def atyp_window(case):
+    if case["mode"] == "nowindow":
+        return dict(running_window_mode=False)
+    L, S = ATYP_WINDOWS[case["wk"] % len(ATYP_WINDOWS)]
+    return dict(running_window_mode=True, running_window_length=L, running_window_step_length=S)
+
+
+def atyp_text(case):
+    if case["kind"] == "narrow":
+        return f"series {'/'.join(case['subset'])} with spread {case['sigma']:.3g} around {case['level']:.6g} (data in {'degC' if case['base'] == 'C' else 'K'})"
+    if case["kind"] == "magnitude":
+        return f"all data multiplied by {case['factor']:g} (a unit with huge / tiny numbers)"
+    return "gaps " + ", ".join(f"{c} x {t} in {k} ({lay})" for k, c, t, lay in case["gaps"])
+
+
+def atypical_oracle(rng, mult, quick, res, hits, worst):
+    """own PRNG stream (the case streams of the batches above do not shift); returns the number of runs"""
+    cfgs = {**_configs(), **_mult_configs()}
+    r0 = rng.randrange(1 << 16)
+    outcomes, worst = {}, {}  # (these cases record deviation / tolerance, reported apart from the relative deviations of the other batches)
+    k = 0
+    for name, (factory, kind) in cfgs.items():
+        slow = kind == "isimip"
+        multiplicative = name.endswith("-multiplicative")
+        plan = [("narrow", (2 if slow else 8)), ("missing", (2 if slow else 4)), ("magnitude", (0 if slow and quick else 3 if multiplicative else 1))]
+        for what, count in plan:
+            for j in range(count * mult * (1 if quick else 5)):
+                q = k + r0  # rotation position (differs from seed to seed)
+                case = {"config": name, "mode": ["nowindow", "window"][(j + q // 3) % 2], "kind": what, "base": "K", "wk": q, "n": 390 + 17 * (q % 9),
+                        "np_seed": rng.randint(0, 2**31 - 2), "via": "atypical"}
+                a, b = MAPS[(q * 7) % len(MAPS)] if j % 2 else (1.0, -273.15)
+                if what == "narrow":
+                    case["subset"] = list(ATYP_SUBSETS[(j + r0) % len(ATYP_SUBSETS)])
+                    fine = (j // len(ATYP_SUBSETS)) % 2 == 0
+                    lo, hi = (1e-5, 5e-4) if fine else (5e-4, 0.3)
+                    case["sigma"] = float(lo * (hi / lo) ** rng.random())
+                    if j % 2 == 0:  # the unit map moves the level next to zero (or, data in degC, away from it)
+                        level, (a, b) = ATYP_NEAR_ZERO[(q // 2) % len(ATYP_NEAR_ZERO)]
+                        if (q // 5) % 3 == 2:  # reverse direction: the data sit next to zero, the other unit is K / degF
+                            case["base"] = "C"
+                            level, (a, b) = [(0.01, (1.0, 273.15)), (-1.8, (1.0, 273.15)), (0.03, (9 / 5, 491.67))][(q // 15) % 3]  # degC -> K, K, degR
+                        case["level"] = level
+                    else:
+                        case["level"] = ATYP_LEVELS_K[q % len(ATYP_LEVELS_K)]
+                elif what == "magnitude":
+                    case["factor"] = ATYP_FACTORS[q % len(ATYP_FACTORS)]
+                    a, b = [(0.01, 0.0), (1e3, 0.0), (1.0, -273.15 * case["factor"]), (9 / 5, 32.0 * case["factor"]), (1e-3, 0.0)][(q // 2) % 5]
+                else:
+                    sub = ATYP_SUBSETS[(j + r0) % len(ATYP_SUBSETS)]
+                    case["gaps"] = [[key, [1, 3, 20, 120, 7, 55][rng.randrange(6)], ATYP_GAP_TOKENS[(q + i) % len(ATYP_GAP_TOKENS)],
+                                     ["scattered", "block"][rng.randrange(2)]] for i, key in enumerate(sub)]
+                if "kernel_density" in name and a == 1.0:  # (see _configs: these configurations are run with rescaling maps)
+                    a, b = 9 / 5, (b * 9 / 5 if case["kind"] == "magnitude" else -459.67)
+                    if what == "narrow" and j % 2 == 0 and case["base"] == "K":
+                        case["level"] = [255.4, 256.1][q % 2]
+                    elif what == "narrow" and j % 2 == 0:
+                        a, b = 9 / 5, 491.67
+                if multiplicative:  # equivariant under pure rescaling only; positive data
+                    a, b = SCALES[q % len(SCALES)], 0.0
+                    case["base"] = "K"
+                    if what == "narrow":
+                        case["level"] = ATYP_LEVELS_K[q % len(ATYP_LEVELS_K)]
+                    if what == "magnitude":
+                        case["factor"], a = ATYP_FLUX[(j + r0) % len(ATYP_FLUX)]
+                case["a"], case["b"] = float(a), float(b)
+                try:
+                    with AutoBinTieSpy() as spy:
+                        problem, mx, detail, tag = atyp_judge(factory, atyp_window(case), atyp_data(case), a, b)
+                    if problem and spy.tie and tag == "bad":
+                        TIES["auto_bins"] += 1
+                        problem, mx, tag = None, 0.0, "auto_bin_tie"
+                    if problem and tag == "bad" and what != "missing" and atyp_float_near_tie(atyp_data(case), a, b):
+                        # tie-free guard: the FLOAT unit map merged two distinct values (or left them a few ulps apart): ranks / interpolation
+                        # fractions then differ between the units by rounding alone — a discontinuity of the float evaluation, not of the exact map
+                        TIES["float_map_near_ties"] = TIES.get("float_map_near_ties", 0) + 1
+                        problem, mx, tag = None, 0.0, "float_near_tie"
+                except Exception as ex:  # noqa: BLE001  (nothing of the check itself may crash on an input it generated)
+                    problem, mx, detail, tag = f"the comparison raised {type(ex).__name__}: {str(ex)[:200]}", float("inf"), None, "error"
+                outcomes[what + ":" + tag] = outcomes.get(what + ":" + tag, 0) + 1
+                key = "atypical-" + what + ":" + name
+                worst[key] = max(worst.get(key, 0.0), mx if np.isfinite(mx) else 1e300)
+                res.count(("atypical", name, case["mode"], what, tuple(case.get("subset", ())), tuple(g[0] + g[2] for g in case.get("gaps", ())), a, b), True,
+                          sample={**case, "max_dev_over_tolerance": mx})
+                if problem:
+                    hits.append((f"{name} [{case['mode']}, {atyp_window(case)}] a={a:g} b={b:g}, {atyp_text(case)}: {problem}", case, detail))
+                k += 1
+    res.extra["oracle_atypical_series_outcomes"] = dict(sorted(outcomes.items()))
+    res.extra["oracle_atypical_series_worst_deviation_over_tolerance"] = {n: float(f"{v:.3g}") for n, v in worst.items()}
+    return k
+
+
 # ------------------------------------------------------------------ tier B for the round-4 theorems
 def hist_tie(rng, n, res):
     """(1) `ibicus.utils.ecdf(x, y, "kernel_density")` is the model's histogram cdf (`Model.Stats.ecdfHist1`, driver op
@@ -694,7 +911,10 @@ def run(tier, res, force_search=False):
         "machinery; the model's values are rationals — the conversion step itself is C14's theorem); (ii) the value an unassigned step holds (0.0 of "
         "zeros_like / uninitialised memory; the model has `none`, that no step is unassigned is Props.C07); (iii) float rounding at discontinuities "
         "(numpy's auto bin count at an exact integer, np.interp / np.quantile knots on tied integer data, float32 step decisions) — the theorems are "
-        "about exact arithmetic, the oracle accepts/avoids these cases and counts them",
+        "about exact arithmetic, the oracle accepts/avoids these cases and counts them; (iv) missing values: NaN / inf propagation (the model's "
+        "values are rationals): outputs are compared with NaN / inf as values, a run that raises in both units has no output to compare, one that "
+        "raises in one unit only is a failing input; on hardly varying series the float unit map may merge two distinct values or leave them "
+        "<= 8 ulps apart — such a case is accepted and counted (oracle_float_map_near_ties_accepted)",
     ]
     res.assumptions = [
         "tas-like settings: no finite bound / threshold / censoring; QuantileMapping detrending additive or none; CDFt delta_shift additive or "
@@ -828,8 +1048,13 @@ def run(tier, res, force_search=False):
     call_form_oracle(rng, n_call, res, hits, worst)
     res.extra["oracle_apply_call_form_runs"] = n_call
     res.extra["oracle_apply_call_form_coverage"] = dict(sorted(CALL_COVERAGE.items()))
+    # ... and on atypical series: gaps (NaN / inf), hardly varying series, units with huge / tiny numbers (own PRNG stream) — see ATYPICAL SERIES
+    TIES["float_map_near_ties"] = 0
+    res.extra["oracle_atypical_series_runs"] = atypical_oracle(random.Random(C.seed() * 15485863 + 604), 3 if (force_search or not lean_ok or mismatches) else 1,
+                                                               quick, res, hits, worst)
+    res.extra["oracle_float_map_near_ties_accepted"] = TIES["float_map_near_ties"]
     res.extra["oracle_runs"] = k
-    res.extra["ties_accepted"] = res.extra.get("ties_accepted", 0) + TIES["auto_bins"]
+    res.extra["ties_accepted"] = res.extra.get("ties_accepted", 0) + TIES["auto_bins"] + TIES["float_map_near_ties"]
     res.extra["oracle_auto_bin_ties_accepted"] = TIES["auto_bins"]
     res.extra["oracle_worst_relative_deviation"] = {n: float(f"{v:.3g}") for n, v in worst.items()}
     res.extra["oracle_unassigned_steps"] = n_unassigned
@@ -860,6 +1085,22 @@ def replay(data):
         return 1
     cfgs = {**_configs(), **_mult_configs()}
     factory, kind = cfgs[case["config"]]
+    if case.get("via") == "atypical":
+        a, b = case["a"], case["b"]
+        try:
+            with AutoBinTieSpy() as spy:
+                problem, mx, _detail, tag = atyp_judge(factory, atyp_window(case), atyp_data(case), a, b)
+            if problem and tag == "bad" and (spy.tie or (case["kind"] != "missing" and atyp_float_near_tie(atyp_data(case), a, b))):
+                problem = None  # a float-rounding discontinuity (accepted and counted by the check as well)
+        except Exception as ex:  # noqa: BLE001
+            problem, mx = f"the comparison raised {type(ex).__name__}: {str(ex)[:200]}", float("inf")
+        print(f"replay {case['config']} [{case['mode']}, {atyp_window(case)}] a={a:g} b={b:g}, {atyp_text(case)}: max deviation / tolerance {mx:.3g}")
+        if problem:
+            print("  " + problem)
+            print(f"VIOLATION property={PROP} (reproduced)")
+            return 1
+        print("not reproduced")
+        return 0
     if case.get("via") == "apply":
         try:
             problem, mx, _ = grid_case(case["config"], factory, case)
